@@ -292,6 +292,55 @@ fn check_duplicated_definitions(ctx: &Ctx, name: &str, text: &str, is_cte: bool,
     n
 }
 
+/// An unrelated definition that borrows the name of an existing definition of another kind (every kind of object has
+/// its own namespace in HULC): still no existing id may change.
+fn check_id_locality_borrowed_names(ctx: &Ctx, name: &str, text: &str, is_cte: bool) -> u64 {
+    let Outcome::Ok(m0) = corpus::convert_text(text, is_cte) else { return 0 };
+    let ids0 = ids_of(&m0);
+    let families: [&[&str]; 2] = [&["DAY-SCHEDULE-PD", "WEEK-SCHEDULE-PD", "SCHEDULE-PD"], &["MATERIAL", "LAYERS", "GLASS-TYPE", "NAME-FRAME", "GAP"]];
+    let mut first_of: BTreeMap<String, String> = BTreeMap::new();
+    for (ty, a, _) in blocks_of(text) {
+        let header = text[a..].lines().next().unwrap_or("");
+        if let Some(n) = header.trim().strip_prefix('"').and_then(|r| r.split('"').next()) {
+            first_of.entry(ty).or_insert(n.to_string());
+        }
+    }
+    let mut n = 0;
+    for fam in families {
+        for existing in fam.iter() {
+            let Some(ename) = first_of.get(*existing) else { continue };
+            for (kind, extra) in EXTRA_DEFS.iter().filter(|(k, _)| fam.contains(k) && k != existing) {
+                // the main block of the extra text is the one of type `kind`: give it the borrowed name
+                let Some((_, a, b)) = blocks_of(extra).into_iter().find(|(ty, _, _)| ty == kind) else { continue };
+                let block = &extra[a..b];
+                let Some(rest) = block.find("\" =") else { continue };
+                let renamed = format!("{}\"{}{}{}", &extra[..a], ename, &block[rest..], &extra[b..]);
+                let t1 = insert_before_end(text, is_cte, &renamed);
+                n += 1;
+                let case = || json!({"part": "id-locality", "file": name, "added": kind, "named_like_the_existing": existing, "name": ename});
+                match corpus::convert_text(&t1, is_cte) {
+                    Outcome::Ok(m1) => {
+                        let ids1 = ids_of(&m1);
+                        for (k, id) in &ids0 {
+                            match ids1.get(k) {
+                                Some(id1) if id1 == id => {}
+                                other => {
+                                    let coll = k.split(':').next().unwrap_or("");
+                                    ctx.violation(&format!("id-locality:{}-changes-when-adding-{}-named-like-a-{}", coll, kind, existing), &format!("{}: id of {} changes from {} to {:?} after appending an unrelated {} that has the name of the {} {:?}", name, k, id, other, kind, existing, ename), case());
+                                    break;
+                                }
+                            }
+                        }
+                    }
+                    Outcome::Err(_) => {}
+                    Outcome::Panic(p) => ctx.violation(&format!("panic:{}", panic_key(&p)), &p, case()),
+                }
+            }
+        }
+    }
+    n
+}
+
 fn insert_before_first_floor(text: &str, extra: &str) -> Option<String> {
     // position of the line that opens the first FLOOR block
     let mut pos = 0;
@@ -465,9 +514,23 @@ pub fn run(ctx: &Ctx) -> i32 {
         cnt.fetch_add(check_duplicated_definitions(ctx, p.rsplit('/').next().unwrap(), &text, *is_cte, ctx.tier.pick(1, 2)), std::sync::atomic::Ordering::Relaxed);
     });
     loc_n += cnt.load(std::sync::atomic::Ordering::Relaxed);
+    {
+        // borrowed names on the smallest real projects (all of them in thorough)
+        let mut sized: Vec<&(String, bool)> = files.iter().collect();
+        sized.sort_by_key(|(p, _)| std::fs::metadata(p).map(|m| m.len()).unwrap_or(0));
+        let sel: Vec<&(String, bool)> = sized.into_iter().take(ctx.tier.pick(3, usize::MAX)).collect();
+        let cnt = std::sync::atomic::AtomicU64::new(0);
+        par_for(sel.len() as u64, |i| {
+            let (p, is_cte) = sel[i as usize];
+            let text = if *is_cte { corpus::read_latin1(p) } else { corpus::read_utf8(p) };
+            cnt.fetch_add(check_id_locality_borrowed_names(ctx, p.rsplit('/').next().unwrap(), &text, *is_cte), std::sync::atomic::Ordering::Relaxed);
+        });
+        loc_n += cnt.load(std::sync::atomic::Ordering::Relaxed);
+    }
     for s in projgen::all_specs(Tier::Quick).iter().step_by(ctx.tier.pick(97, 11)) {
         loc_n += check_id_locality(ctx, &format!("generated {:?}", s), &projgen::ctehexml_text(s), false);
         loc_n += check_duplicated_definitions(ctx, &format!("generated {:?}", s), &projgen::ctehexml_text(s), false, 2);
+        loc_n += check_id_locality_borrowed_names(ctx, &format!("generated {:?}", s), &projgen::ctehexml_text(s), false);
     }
     ctx.eval(loc_n);
     ctx.nontriv(loc_n);
@@ -540,7 +603,7 @@ pub fn run(ctx: &Ctx) -> i32 {
     }
     ctx.finish(
         "model_checking",
-        &format!("(1) histories: every sequence of 1 and 2 operations over 9 operations (3 conversions, 5 indicator computations incl. a model without windows and a broken model, 1 collect_hulc_data with extra files) and {} sequences of 3 over a 6-operation core, each run in a fresh worker process: the last operation's observation (model JSON bytes / indicators as JSON value) must equal its observation as the only operation of a fresh process, and repeat identically 3x in-process; 4 conversions x 8 fresh processes byte-identical; (2) id locality: for corpus and generated projects, appending each of 12 unrelated definitions (material, layers, glass, frame, gap, polygon, day/week/year schedule, shade, bridge, floor+space+wall) keeps every pre-existing element id, and writing the first block of every type twice (straight after itself / again at the end) gives the same bytes on every conversion, on another thread too, and keeps the ids; (3) schedules: controlled scheduler over the three hooked lock sites, real threads, DFS with preemption bounds as listed in schedule_exploration (deadlock / panic / result-vs-sequential-reference per execution, replay determinism checked first), + a free-running 16-thread sampling complement; (4) the 6 shipped (project, reference model) pairs compared through today's serialiser", ctx.tier.pick(36, 216)),
+        &format!("(1) histories: every sequence of 1 and 2 operations over 9 operations (3 conversions, 5 indicator computations incl. a model without windows and a broken model, 1 collect_hulc_data with extra files) and {} sequences of 3 over a 6-operation core, each run in a fresh worker process: the last operation's observation (model JSON bytes / indicators as JSON value) must equal its observation as the only operation of a fresh process, and repeat identically 3x in-process; 4 conversions x 8 fresh processes byte-identical; (2) id locality: for corpus and generated projects, appending each of 12 unrelated definitions (material, layers, glass, frame, gap, polygon, day/week/year schedule, shade, bridge, floor+space+wall) keeps every pre-existing element id - also when the added definition borrows the name of an existing definition of another kind of the same family (day/week/year schedules; material/layers/glazing/frame/gap) -, and writing the first block of every type twice (straight after itself / again at the end) gives the same bytes on every conversion, on another thread too, and keeps the ids; (3) schedules: controlled scheduler over the three hooked lock sites, real threads, DFS with preemption bounds as listed in schedule_exploration (deadlock / panic / result-vs-sequential-reference per execution, replay determinism checked first), + a free-running 16-thread sampling complement; (4) the 6 shipped (project, reference model) pairs compared through today's serialiser", ctx.tier.pick(36, 216)),
         true,
         json!({"states": states.max(1), "transitions": transitions.max(1), "traces_validated_against_impl": transitions}),
     )
